@@ -57,7 +57,7 @@ for s in seeds:
             if AUTO and not relevant(p, target, touched):
                 row[p] = {"exit": 0, "clauses": [], "line": "untouched: this check reads none of the files the patch changes"}
                 continue
-            o = subprocess.run([f"{V}/check", p, "--tier", "quick"], capture_output=True, text=True)
+            o = subprocess.run([f"{V}/check", p, "--tier", "quick"], capture_output=True, text=True, env=dict(os.environ, VERIF_EVIDENCE_DIR="/tmp/verif-seed-evidence"))
             lines = [l for l in o.stdout.split("\n") if re.match(r"^(PASS|VIOLATION|INCONCLUSIVE|FAILED-OBLIGATION|KNOWN)", l)]
             cl = sorted({m.group(1) for l in lines for m in [re.search(r"clause=(\S+)", l)] if m})
             row[p] = {"exit": o.returncode, "clauses": cl, "line": (lines[-1] if lines else "")[:300]}
